@@ -26,6 +26,12 @@ R10.9  growable containers: the real code of the string builder, the type stack,
        partially evaluated on operation sequences (append one by one, bulk appends around the growth points, sparse sets, drop,
        clear, push/pop) with allocations of exactly the requested size; every read and write must stay inside the allocation,
        and the container invariants (length <= capacity = allocated size, terminator present) must hold after every step
+R10.10 count and array of a module container are set together: a function that stores the count/length of a container reachable
+       from the module record also stores (or ensures the capacity of) its array in the same function - a count without an array
+       is an out-of-bounds read waiting for the next loop over the container (e.g. on a file truncated in between)
+R10.11 reader primitives at the exact end of input: bufferReadByte/F32/F64/Equal, the LEB128 decoders, wasmReadName and wasmReadBytes
+       are evaluated on buffers that hold exactly the bytes needed (must succeed, consuming all) and one byte less (must fail
+       or stop without reading outside the buffer)
 R10.5  name bytes: the hex escape of identifier bytes formats an unsigned byte with at most two digits in both twins
 """
 import math
@@ -1000,7 +1006,7 @@ def set_partitions(n):
     return rec([], 0)
 
 
-def check_name_dedup(chk, tier):
+def check_name_dedup(chk, tier, rule='R10.8'):
     from .. import pe, emit
     from ..pe import Ptr
     tu = astdb.dump_ast(astdb.src('w2c2/reader.c'))
@@ -1100,7 +1106,7 @@ def check_name_dedup(chk, tier):
                     if not is_kept:
                         bad.append('%s: slot %d is %s, expected %s' % (label, k, 'kept' if got[k] != 0 else 'cleared', 'kept' if want_kept else 'cleared'))
                         break
-    chk.expect(not bad, 'R10.8', 'name-dedup-lifetime',
+    chk.expect(not bad, rule, 'name-dedup-lifetime',
                '%s mishandles %d of %d name patterns, e.g. %s' % (fn, len(bad), n_cases, ' | '.join(bad[:3])), site,
                detail_ok='%d equality patterns of up to %d names: no read/free after free, duplicates cleared, unique names kept' % (n_cases, nmax))
     return n_cases
@@ -1276,6 +1282,145 @@ def check_growable(chk):
     return n_ops
 
 
+# ---- R10.10 ---------------------------------------------------------------------------------------
+
+def check_count_array_pairs(chk, funcs):
+    n = 0
+    for tu, f in funcs:
+        if not (astdb.file_of(f) or '').endswith('reader.c'):
+            continue
+        body = astdb.fn_body(f)
+        count_stores, array_stores, ensured = {}, set(), set()
+        for a in walk(body):
+            if a.get('kind') in ('BinaryOperator', 'CompoundAssignOperator') and (a.get('opcode') == '=' or a.get('kind') == 'CompoundAssignOperator'):
+                l = strip(kids(a)[0])
+                if l.get('kind') != 'MemberExpr':
+                    continue
+                owner = astdb.expr_text(strip(kids(l)[0]))
+                if 'module->' not in owner and not owner.startswith('module'):
+                    continue
+                if not re.match(r'Wasm\w+s$|WasmNames$', record_of(kids(l)[0], tu)):
+                    continue        # not a (count, array) container
+                lt = tu.desugar(astdb.qtype(l))
+                if l.get('name') in ('count', 'length') and ct.tinfo(lt)[0] == 'int':
+                    zero = astdb.const_int(strip(kids(a)[1], casts=True), tu) == 0
+                    if not zero:
+                        count_stores.setdefault(owner, a)
+                elif lt.rstrip().endswith('*'):
+                    array_stores.add(owner)
+            if a.get('kind') == 'CallExpr' and (astdb.callee_name(a) or '').endswith('EnsureCapacity'):
+                for x in astdb.call_args(a)[:1]:
+                    x0 = strip(x, casts=True)
+                    if x0.get('kind') == 'UnaryOperator' and x0.get('opcode') == '&':
+                        ensured.add(astdb.expr_text(strip(kids(x0)[0])))
+        for owner, node in sorted(count_stores.items()):
+            n += 1
+            chk.expect(owner in array_stores or owner in ensured, 'R10.10', '%s:%s' % (f['name'], owner),
+                       '%s stores the element count of %s at %s but neither stores nor ensures its array in the same function: until some later '
+                       'code sets the array, every loop over this container indexes a NULL/stale array (for instance when the file ends in '
+                       'between)' % (f['name'], owner, astdb.loc_str(node)), '%s:count-without-array' % f['name'], astdb.loc_str(node))
+    return n
+
+
+# ---- R10.11 ---------------------------------------------------------------------------------------
+
+def check_exact_end(chk, rule='R10.11'):
+    from .. import pe
+    from ..pe import Ptr
+    tu = astdb.dump_ast(astdb.src('w2c2/reader.c'))
+    chk.unit(tu)
+
+    def memcpy(interp, args, node):
+        d, s_, k = args
+        if not isinstance(k, int):
+            raise pe.PEError('copy of symbolic length')
+        for i in range(k):
+            interp.store(d.c, d.k + i, interp.load(s_.c, s_.k + i))
+        return d
+
+    def memcmp(interp, args, node):
+        a, b, k = args
+        for i in range(k):
+            x, y = interp.load(a.c, a.k + i), interp.load(b.c, b.k + i)
+            if x != y:
+                return -1 if x < y else 1
+        return 0
+
+    def calloc(interp, args, node):
+        return Ptr([0] * (args[0] * max(1, args[1] if isinstance(args[1], int) else 1)), 0)
+    leafs = {'memcpy': memcpy, '__builtin_memcpy': memcpy, 'strncpy': memcpy, '__builtin_strncpy': memcpy, 'memcmp': memcmp,
+             'calloc': calloc, 'free': lambda i, a, n: None}
+
+    def leb(v, pad=0):
+        out = []
+        while True:
+            b = v & 0x7f
+            v >>= 7
+            if v or pad:
+                out.append(b | 0x80)
+                pad -= 1 if not v and pad else 0
+                if not v and pad == 0:
+                    out.append(0) if False else None
+            else:
+                out.append(b)
+                return out
+
+    def run(fn, data, extra_args, short):
+        buf_bytes = list(data[:-1] if short else data)
+        it = pe.Interp([tu], dict(leafs))
+        it.strict_bounds = True
+        it.strict_store_bounds = True
+        it.union_endian = 'little'
+        res = {'v': 0}
+
+        def setup():
+            buf = {'v': {'data': Ptr(buf_bytes, 0) if buf_bytes else Ptr([], 0), 'length': len(buf_bytes)}}
+            return (fn, [Ptr(buf, 'v')] + extra_args(res), {'buf': buf['v'], 'res': res})
+        paths = [p for p in it.explore(setup) if not p.aborted]
+        if len(paths) != 1:
+            raise AnalysisBroken('%s %s: %d paths' % (rule, fn, len(paths)))
+        p = paths[0]
+        return p.ret, p.state['buf']['length'], p.state['res']['v']
+    cases = [
+        ('bufferReadByte', [0x7B], lambda res: [Ptr(res, 'v')]),
+        ('bufferReadF32', [1, 2, 3, 4], lambda res: [Ptr(res, 'v')]),
+        ('bufferReadF64', [1, 2, 3, 4, 5, 6, 7, 8], lambda res: [Ptr(res, 'v')]),
+        ('bufferReadEqual', [0, 0x61, 0x73, 0x6D], lambda res: [Ptr([0, 0x61, 0x73, 0x6D], 0), 4]),
+        ('leb128ReadU32', [0x05], lambda res: [Ptr(res, 'v')]),
+        ('leb128ReadU32', [0x85, 0x80, 0x80, 0x80, 0x00], lambda res: [Ptr(res, 'v')]),
+        ('leb128ReadI32', [0xFF, 0xFF, 0xFF, 0xFF, 0x7F], lambda res: [Ptr(res, 'v')]),
+        ('leb128ReadU64', [0x85] + [0x80] * 8 + [0x00], lambda res: [Ptr(res, 'v')]),
+        ('leb128ReadI64', [0x7F], lambda res: [Ptr(res, 'v')]),
+        ('wasmReadName', [3, 0x61, 0x62, 0x63], lambda res: [Ptr(res, 'v')]),
+        ('wasmReadName', [0], lambda res: [Ptr(res, 'v')]),
+        ('wasmReadBytes', [2, 9, 8], lambda res: [Ptr({'v': {'data': 0, 'length': 0}}, 'v')]),
+        ('wasmReadBytes', [0], lambda res: [Ptr({'v': {'data': 0, 'length': 0}}, 'v')]),
+    ]
+    n = 0
+    for fn, data, extra in cases:
+        if fn not in tu.functions:
+            raise AnalysisBroken('%s: reader primitive %s not found' % (rule, fn))
+        chk.fn(fn)
+        label = '%s[%d bytes]' % (fn, len(data))
+        site = fn + ':exact-end'
+        n += 1
+        try:
+            ret, left, _ = run(fn, data, extra, False)
+            ok = bool(ret) and left == 0
+            chk.expect(ok, rule, label + ':accepts', '%s on a buffer that holds exactly its %d bytes returns %r with %r bytes left: input that ends '
+                       'exactly at the end of the file (a name, LEB128 number or byte vector in the last section) is rejected or not consumed'
+                       % (fn, len(data), ret, left), site)
+        except pe.OutOfBounds as e:
+            chk.fail(rule, label + ':accepts', '%s on a buffer that holds exactly its %d bytes: %s' % (fn, len(data), e), site)
+        try:
+            ret, left, _ = run(fn, data, extra, True)
+            # one byte short: failure (0/false) - the LEB decoders report the bytes they could read, which is fine as long as nothing is over-read
+            chk.ok(rule, label + ':short-input-safe', 'returns %r' % (ret,))
+        except pe.OutOfBounds as e:
+            chk.fail(rule, label + ':short-input-safe', '%s on a buffer one byte too short: %s' % (fn, e), site + ':over-read')
+    return n
+
+
 # ---- R10.6 ----------------------------------------------------------------------------------------
 
 def check_writer_bounds(chk):
@@ -1327,6 +1472,8 @@ def run(chk):
     n_al = check_allocation_bounds(chk, funcs)
     n_nm = check_name_dedup(chk, chk.tier)
     n_gr = check_growable(chk)
+    n_ca = check_count_array_pairs(chk, funcs)
+    n_ee = check_exact_end(chk)
     chk.extra['sites'] = dict(sprintf=n_fmt, copies=n_cp, raw_buffer=n_buf, nullable_sinks=n_null,
                               tainted_locations=sorted(map(str, nf.tainted)), seed_evidence={str(k): v[:3] for k, v in just.items()})
     chk.floor('R10.1', 10)
